@@ -140,3 +140,33 @@ def three_node_graph(rates=(10, 20, 15), windows=(2, 1, 2), ts_max=0.4, num_epis
     cg = generate_graphs(nodes, ts_max, rng=jax.random.PRNGKey(seed), num_episodes=num_episodes)
     g = Graph(nodes=nodes, supervisor=n1, graphs_raw=cg, supergraph=supergraph or Supergraph.MCS, progress_bar=False, **gkw)
     return nodes, cg, g
+
+
+def hetero_graph(settings, supergraph=None, node_cls=ProbeNode, ts_max=0.6, **gkw):
+    """p (20 Hz) -> x (10 Hz) -> s (10 Hz, supervisor) plus a direct link p -> s; one episode per (x_phase_delay, direct_delay)
+    setting, concatenated into a multi-episode graph whose episodes have *different* schedules (as stacked recordings have)."""
+    import jax
+    import jax.numpy as jnp
+    from distrax import Deterministic as D
+    from rex.artificial import generate_graphs
+    from rex.constants import Supergraph
+    from rex.graph import Graph
+
+    def make(x_phase_delay, direct_delay):
+        p = node_cls(name="node2", rate=20, delay_dist=D(0.005))
+        x = node_cls(name="node3", rate=10, delay_dist=D(0.005))
+        s_ = node_cls(name="node1", rate=10, delay_dist=D(0.005))
+        x.connect(p, window=1, blocking=False, delay_dist=D(0.004), delay=x_phase_delay)
+        s_.connect(x, window=1, blocking=False, delay_dist=D(0.004), delay=0.005)
+        s_.connect(p, window=1, blocking=False, delay_dist=D(direct_delay), delay=0.005)
+        return {"node2": p, "node3": x, "node1": s_}
+
+    eps = []
+    nodes = None
+    for st in settings:
+        nd = make(*st)
+        nodes = nodes or nd
+        eps.append(generate_graphs(nd, ts_max, num_episodes=1))
+    graphs = jax.tree_util.tree_map(lambda *a: jnp.concatenate(a, axis=0), *eps)
+    g = Graph(nodes=nodes, supervisor=nodes["node1"], graphs_raw=graphs, supergraph=supergraph or Supergraph.MCS, progress_bar=False, **gkw)
+    return nodes, graphs, g
